@@ -1659,6 +1659,66 @@ func runC20(w *World, r *Report) {
 	}
 
 	// ---- nil-miss-deref
+	r.Rule("C20.chain-tail-order-free", "the list of 'previous nodes' a Chain keeps between Append calls (the next Append adds its edges in that order, and a pass-through node is typed from the first edge it is shown) never holds the keys of a map in iteration order: where it is filled from a map (the branch's end nodes) it is sorted — or the same Append sequence is accepted on some attempts and rejected on others", 2)
+	{
+		chainT := w.Named("compose", "Chain")
+		n := 0
+		ms := types.NewMethodSet(types.NewPointer(chainT))
+		for i := 0; i < ms.Len(); i++ {
+			f := w.Prog.FuncValue(ms.At(i).Obj().(*types.Func))
+			if f == nil || f.Blocks == nil {
+				continue
+			}
+			for _, fw := range fieldWrites(f) {
+				if fw.field.Name() != "preNodeKeys" || fw.kind != "store" {
+					continue
+				}
+				n++
+				c, isCall := fw.val.(*ssa.Call)
+				if !isCall {
+					r.OK("C20.chain-tail-order-free", fmt.Sprintf("%s: store #%d of the tail", w.fname(f), n), fw.in.Pos(), "not produced by a map walk")
+					continue
+				}
+				sc := staticCallee(c)
+				fromMap := false
+				if sc != nil && w.inRepo(sc) {
+					instrs(sc, func(x ssa.Instruction) {
+						if rg, ok := x.(*ssa.Range); ok {
+							if _, isMap := rg.X.Type().Underlying().(*types.Map); isMap {
+								fromMap = true
+							}
+						}
+					})
+				}
+				if !fromMap {
+					r.OK("C20.chain-tail-order-free", fmt.Sprintf("%s: store #%d of the tail", w.fname(f), n), fw.in.Pos(), "not produced by a map walk")
+					continue
+				}
+				// a sort of the field (or of the value) after the store, on every path to the return
+				skip, wit := pathQuery{fn: f, from: fw.in, goal: isReturn, avoid: func(x ssa.Instruction) bool {
+					ci, ok := x.(ssa.CallInstruction)
+					if !ok {
+						return false
+					}
+					nm := calleeFullName(x)
+					if nm != "sort.Strings" && nm != "sort.Slice" && nm != "sort.SliceStable" {
+						return false
+					}
+					a := ci.Common().Args[0]
+					if mi, isMI := a.(*ssa.MakeInterface); isMI {
+						a = mi.X
+					}
+					lf, _ := loadedField(a)
+					return a == fw.val || (lf != nil && lf.Name() == "preNodeKeys")
+				}}.exists()
+				r.Check(!skip, "C20.chain-tail-order-free", fmt.Sprintf("%s: store #%d of the tail", w.fname(f), n), fw.in.Pos(), "sorted before the method returns", "the tail is the values of a map in iteration order ("+wit+"): after AppendBranch the next Append adds its edges in that order and a pass-through node is typed from the first one — a branch with a string->string and a string->any lambda, then AppendPassthrough, then AppendLambda(int->int) was accepted 53 and rejected 147 times out of 200 fresh builds of the SAME sequence")
+			}
+		}
+		if n < 2 {
+			undecidedf("C20.chain-tail-order-free: only %d stores of Chain.preNodeKeys found", n)
+		}
+	}
+
 	r.Rule("C20.runnable-read-only-where-set", "a node added as a nested graph has no runnable until its parent compiles (graphNode.cr is nil): the Add* paths of the graph (addNode, addBranch, addEdgeWithMappings) read through a node's cr only where the path establishes that it is set — cr != nil, or the node being a pass-through node by its executor meta", 2)
 	{
 		fCr := w.Field("compose", "graphNode", "cr")
